@@ -17,8 +17,8 @@
     objects in any order, each with its slots in any order; [commit_updates]: the loops of
     IntermediateRoot over the pending objects. *)
 From Coq Require Import List ZArith NArith Bool Permutation.
-From Kardia Require Import Base.Int64 C06.Model C06.ModelValset C06.ProofsMap C06.ProofsFlush
-     C06.ProofsValset C06.ProofsCalc C06.ProofsExec.
+From Kardia Require Import Base.Int64 C06.Model C06.ModelValset C06.ModelSnap C06.ProofsMap C06.ProofsFlush
+     C06.ProofsValset C06.ProofsCalc C06.ProofsExec C06.ProofsSnapInv C06.ProofsSnapView C06.ProofsSnapChain.
 Import ListNotations.
 Local Open Scope Z_scope.
 
@@ -143,3 +143,97 @@ Theorem C06_own_block_evidence_cap_needed :
   validate_block st (create_proposal_block st 0 false 0 4 3 true) = VEvidence.
 Proof. exact evidence_cap_needed. Qed.
 Print Assumptions C06_own_block_evidence_cap_needed.
+
+Local Close Scope Z_scope.
+
+(** (e) Snapshot configuration (ModelSnap.v: the StateDB overlay of a block with createObject's
+    reset branch, the destruct set, Snapshot / RevertToSnapshot, Finalise, Commit; the diff layers
+    with their lookup order, flatten, diffToDisk, Cap, the generated disk layer).
+
+    Vocabulary.  [chain_snap keep n blocks]: a node that keeps snapshots executes the blocks (lists
+    of StateDB operations as the KVM issues them, reverts included): every read of the parent state
+    goes through the diff layers down to the disk layer, Commit flushes into the tries and pushes
+    the layer (destructs, accounts, storage), Cap keeps [keep] layers and flattens the rest into
+    the disk layer.  [chain_trie c blocks]: a node without snapshots, every read goes to the tries.
+    Both return, per block, the state content and the values read.  [genesis_node c]: tries [c],
+    no diff layer, the disk layer generated from [c].
+
+    For EVERY chain of blocks, every Cap depth and every (canonical) genesis state the two nodes
+    compute the same state after every block and return the same reads: the result of block
+    execution does not depend on whether the node keeps snapshots. *)
+Theorem C06_snapshot_config_free :
+  forall keep c blocks, wf_content c ->
+    chain_snap keep (genesis_node c) blocks = chain_trie c blocks.
+Proof. exact chain_config_free. Qed.
+Print Assumptions C06_snapshot_config_free.
+
+(** ... from any consistent node, not only from genesis (re-opened nodes, any layer stack) *)
+Theorem C06_snapshot_config_free_from :
+  forall keep blocks n, node_ok n -> chain_snap keep n blocks = chain_trie (n_content n) blocks.
+Proof. exact chain_agree. Qed.
+Print Assumptions C06_snapshot_config_free_from.
+
+(** ... and the snapshot node stays consistent: after any chain, looking an account or a slot up
+    through its layers gives what its tries hold *)
+Theorem C06_snapshot_view_invariant :
+  forall keep blocks n, node_ok n ->
+    view_ok (n_layers (final_snap keep n blocks)) (n_disk (final_snap keep n blocks))
+            (n_content (final_snap keep n blocks)).
+Proof. exact chain_view. Qed.
+Print Assumptions C06_snapshot_view_invariant.
+
+(** one block: the diff layer Commit hands to snapshot.Tree.Update describes exactly the state the
+    same Commit flushes into the tries — for ANY overlay reachable by the operations (the
+    invariant [inv]) *)
+Theorem C06_snapshot_layer_of_commit :
+  forall ls dk c st, wf_content c -> view_ok ls dk c -> inv (bk_layers ls dk) st -> dirt st = [] ->
+    view_ok (layer_of st :: ls) dk (commit_updates (pending_objs st) c).
+Proof. exact view_commit. Qed.
+Print Assumptions C06_snapshot_layer_of_commit.
+
+(** the invariant holds after any list of operations, on any backend; in particular every address
+    left in stateObjectsDestruct at the end of a block is one of the pending objects: a
+    "destructed" mark never covers an account the flush leaves alone (what a missing restore in
+    resetObjectChange.revert breaks: ProofsSnapChain.ex_stale_view_breaks) *)
+Theorem C06_overlay_invariant :
+  forall bk ops, inv bk (fst (run_block bk ops)) /\ dirt (fst (run_block bk ops)) = [].
+Proof. exact run_block_inv. Qed.
+Print Assumptions C06_overlay_invariant.
+
+Theorem C06_destruct_set_tracked :
+  forall bk ops a, mem a (destr (fst (run_block bk ops))) = true ->
+    mem a (pend (fst (run_block bk ops))) = true /\ fm_get a (live (fst (run_block bk ops))) <> None.
+Proof. exact destruct_tracked. Qed.
+Print Assumptions C06_destruct_set_tracked.
+
+(** two parent views that answer every account and slot lookup alike give the same run of a
+    block, whether the reads are served by snap.Storage (by address, whatever the object's root)
+    or by the object's own storage trie (empty for a re-created object) *)
+Theorem C06_overlay_read_path_free :
+  forall b1 b2 ops, bk_same b1 b2 -> bk_wf b1 -> run_block b1 ops = run_block b2 ops.
+Proof. intros b1 b2 ops S W. exact (same_run_block b1 b2 S W ops). Qed.
+Print Assumptions C06_overlay_read_path_free.
+
+(** the snapshot tree below the head: flattening a layer into its parent, writing the bottom
+    layer to disk, Cap at any depth and generating the disk layer from a state change no lookup *)
+Theorem C06_snapshot_flatten_free :
+  forall l p ls dk, wf_layer l -> bk_same (bk_layers (flatten l p :: ls) dk) (bk_layers (l :: p :: ls) dk).
+Proof. exact look_flatten. Qed.
+Print Assumptions C06_snapshot_flatten_free.
+
+Theorem C06_snapshot_disk_free :
+  forall l dk, wf_layer l -> bk_same (bk_layers [] (diff_to_disk l dk)) (bk_layers [l] dk).
+Proof. exact look_diff_to_disk. Qed.
+Print Assumptions C06_snapshot_disk_free.
+
+Theorem C06_snapshot_cap_free :
+  forall n ls dk, Forall wf_layer ls ->
+    Forall wf_layer (fst (cap n ls dk)) /\
+    bk_same (bk_layers (fst (cap n ls dk)) (snd (cap n ls dk))) (bk_layers ls dk).
+Proof. exact look_cap. Qed.
+Print Assumptions C06_snapshot_cap_free.
+
+Theorem C06_snapshot_generated_disk_layer :
+  forall c, sorted c -> view_ok [] (disk_of_content c) c.
+Proof. exact view_genesis. Qed.
+Print Assumptions C06_snapshot_generated_disk_layer.
